@@ -62,11 +62,14 @@ def period_of(tok, dim):
     return [8.0] * dim if tok == 1 else [8.0, 16.0, 12.0][:dim]
 
 
+ODD_MODES = [3]      # an odd mode number (refused by the Fourier generator)
+
+
 def fourier_modes(tok):
     return {4: 26, 6: 14}[tok] if FOURIER_ODD[0] else tok
 
 
-def mc_text(name, kind, dim, size, seed_compare="value", dk_refresh=True):
+def mc_text(name, kind, dim, size, seed_compare="value", dk_refresh=True, refused_atomic=True):
     small = size in ("gen",)
     anis = "{1}" if dim == 1 else "{1, 2, 3}"
     ang = "{0}" if dim == 1 else ("{0, 1}" if not small else "{0, 1}")
@@ -75,7 +78,7 @@ def mc_text(name, kind, dim, size, seed_compare="value", dk_refresh=True):
         "VarVals": "{1, 2}", "LenVals": "{1, 2}", "AnisVals": anis, "AngVals": ang, "NugVals": "{0, 1}",
         "ModeNos": "{4, 6}", "Periods": "{1, 2}" if kind == "Fourier" else "{1}",
         "SeedCompare": '"%s"' % seed_compare, "DkRefresh": "TRUE" if dk_refresh else "FALSE",
-        "MaxDraws": "3",
+        "MaxDraws": "3", "RefusedAtomic": "TRUE" if refused_atomic else "FALSE",
         "UpdModels": ("{[var |-> 1, len |-> 2, anis |-> 1, ang |-> 0, nug |-> 0]}" if dim == 1 else
                       "{[var |-> 1, len |-> 1, anis |-> 3, ang |-> 0, nug |-> 0], [var |-> 2, len |-> 2, anis |-> 1, ang |-> 1, nug |-> 1]}"),
         "InitModels": ("{[var |-> 1, len |-> 1, anis |-> 1, ang |-> 0, nug |-> 0]}" if dim == 1 else
@@ -173,8 +176,34 @@ class Real:
             if op["n"] != KEEP:
                 kw["mode_no"] = [fourier_modes(op["n"])] * self.dim
             srf.generator.update(model=srf.model, **kw)
+        elif n == "GenRefused":
+            self.refused(op)
         else:
             raise AssertionError(n)
+
+    def refused(self, op):
+        """A request the generator must refuse; the caller catches the error and goes on."""
+        srf, gen = self.srf, self.srf.generator
+        self.nref = getattr(self, "nref", 0) + 1
+        has_m, has_p = "none" not in op["m"], op["p"] != KEEP
+        odd = [ODD_MODES[0]] * self.dim
+        try:
+            if has_m or has_p:
+                kw = {}
+                if has_m:
+                    kw["model"] = self.model(op["m"])
+                if has_p:
+                    kw["period"] = period_of(op["p"], self.dim)
+                gen.update(mode_no=odd, **kw)
+            elif self.nref % 3 == 1:
+                gen.mode_no = odd
+            elif self.nref % 3 == 2:
+                gen.update(mode_no=odd[:1])
+            else:
+                gen.update(mode_no=odd, seed=SEED_NEAR + 5)
+        except ValueError:
+            return True
+        return False
 
     def call(self, s, pos, **kw):
         return self.srf(pos, seed=seed_obj(s, self.fresh), **kw)
@@ -227,6 +256,11 @@ def replay(col, kind, cls, dim, beh, origin, locality=True):
             hist.append(op)
             rp = {"kind": kind, "class": cls, "dim": dim, "init": {k: st0[k] for k in ("pm", "seed", "modeNo", "period")},
                   "ops": list(hist), "fresh_seed_objects": fresh, "origin": origin}
+            if op["name"] == "GenRefused":
+                if not r.refused(op):      # accepted: outside the modelled behaviours (not a property matter)
+                    col.drift.append("%s/%s dim %d: request %s was not refused" % (kind, cls, dim, tlaval.to_tla(op)))
+                    break
+                continue
             if op["name"] != "Call":
                 r.apply(op)
                 continue
@@ -346,6 +380,7 @@ def arrangements(r, f, X, dim, scale, vec, kind, cls, want):
 class _Collect:
     def __init__(self):
         self.violations = []
+        self.drift = []
 
     def violation(self, key, what, replay):
         if not any(k == key for k, _w, _r in self.violations):
@@ -368,7 +403,7 @@ def _work(job):
         def sig(p):
             return tuple(sorted({nodes[i]["op"]["name"] + ("." + str(nodes[i]["op"].get("fld", ""))) for i in p[1:]}))
         rng.shuffle(ps)
-        rare = ("GenUpdate", "GenPeriod", "GenModeNo", "GenSeed", "GenReset", "AssignModel", "InPlace.anis", "InPlace.ang")
+        rare = ("GenRefused", "GenUpdate", "GenPeriod", "GenModeNo", "GenSeed", "GenReset", "AssignModel", "InPlace.anis", "InPlace.ang")
         ps.sort(key=lambda p: -sum(any(x.startswith(r) for x in sig(p)) for r in rare))
         seen, first, rest = set(), [], []
         for p in ps:
@@ -407,6 +442,7 @@ def _work(job):
             out["samples"].append({"generator": kind, "class": cls, "dim": dim,
                                    "ops": [tlaval.to_tla(s["op"]) for s in sts[1:]][:12]})
     out["violations"] = col.violations
+    out["drift"] = col.drift[:3]
     return out
 
 
@@ -464,7 +500,7 @@ def random_executions(kind, cls, dim, rng, n_exec, n_ops):
             events.append(dict(name="Init", pm=dict(pm), seed=st["seed"], modeNo=st["modeNo"], period=st["period"], draws=0))
             for _i in range(n_ops):
                 k = rng.choice(["Call", "Call", "Call", "InPlace", "InPlace", "AssignModel", "GenModeNo", "GenSeed", "GenReset", "GenUpdate"]
-                               + (["GenPeriod"] if kind == "Fourier" else []))
+                               + (["GenPeriod", "GenRefused"] if kind == "Fourier" else []))
                 if k == "Call":
                     op = {"name": "Call", "seed": rng.choice([KEEP, KEEP] + seeds)}
                     r.call(op["seed"], X)
@@ -495,6 +531,15 @@ def random_executions(kind, cls, dim, rng, n_exec, n_ops):
                 elif k == "GenReset":
                     op = {"name": k, "v": rng.choice([KEEP] + seeds)}
                     r.apply(op)
+                elif k == "GenRefused":
+                    fo = kind == "Fourier"
+                    m = {"none": True}
+                    if fo and rng.random() < 0.4:
+                        m = {"var": rng.choice([1, 2]), "len": rng.choice([1, 2]), "anis": rng.choice(anis_toks),
+                             "ang": rng.choice(ang_toks), "nug": rng.choice([0, 1])}
+                    op = {"name": k, "m": m, "p": rng.choice([KEEP, 1, 2]) if fo else KEEP}
+                    if not r.refused(op):
+                        break       # accepted: the execution leaves the modelled behaviours here
                 else:
                     op = {"name": k, "v": rng.choice({"GenModeNo": [4, 6], "GenSeed": seeds, "GenPeriod": [1, 2]}[k])}
                     r.apply(op)
@@ -597,12 +642,13 @@ def run(pid, tier, seed, replay=None):
                     timeout=1800, simulate=dict(num=120 if thorough else 40, depth=30 if thorough else 16,
                                                 seed=rng.randrange(1, 2**31), file=sc.path("sim/" + name)))))
         # the defects this spec was written against must be found by TLC when switched back on
-        for sk, sc_, dk_ in (("RandMeth", "identity", True), ("Fourier", "value", False)):
+        for sk, sc_, dk_, ra_, nm in (("RandMeth", "identity", True, True, "NEG"), ("Fourier", "value", False, True, "NEG"),
+                                      ("Fourier", "value", True, False, "NEGR")):
             if sk in speckinds:
-                name = "NEG_%s" % sk
-                mod, cfg = mc_text(name, sk, 2, "mc", seed_compare=sc_, dk_refresh=dk_)
+                name = "%s_%s" % (nm, sk)
+                mod, cfg = mc_text(name, sk, 2, "mc", seed_compare=sc_, dk_refresh=dk_, refused_atomic=ra_)
                 sc.write(name + ".tla", mod)
-                jobs.append((("neg", sk, 2), sc, name, cfg_mc(cfg), dict(workers=2, timeout=1800)))
+                jobs.append((("neg" if nm == "NEG" else "negrefused", sk, 2), sc, name, cfg_mc(cfg), dict(workers=2, timeout=1800)))
         import time as _t
         _t0 = _t.time()
         res = tlc.run_many(jobs, parallel=6)
@@ -610,8 +656,8 @@ def run(pid, tier, seed, replay=None):
               ", ".join("%s/%s/%d %.0fs" % (k[0], k[1], k[2], r.wall) for k, r in sorted(res.items()))))
         for (k, sk, dim), r in sorted(res.items()):
             tlc.must_pass(r, "%s %s %d" % (k, sk, dim))
-            if k == "neg":
-                rep.extra.setdefault("non_vacuity", {})[sk] = "TLC finds %s %s when the repaired defect is switched back on in the code-shaped layer" % (r.error or ("nothing", ""))
+            if k in ("neg", "negrefused"):
+                rep.extra.setdefault("non_vacuity", {})[sk + ("" if k == "neg" else ":refused-update-not-atomic")] = "TLC finds %s %s when the repaired defect is switched back on in the code-shaped layer" % (r.error or ("nothing", ""))
                 if r.error is None:
                     raise tlc.MachineryError("vacuity: the %s spec does not detect its seeded defect" % sk)
                 continue
@@ -650,6 +696,8 @@ def run(pid, tier, seed, replay=None):
                     rep.sample(s, cap=6)
                 for key, what, rp in o["violations"]:
                     rep.violation(key, what, rp)
+                for d in o.get("drift", ()):
+                    rep.drift_msg(d)
         trace_validation(rep, sc, tier, rng, kinds)
     return rep.finish(
         level="model_checking",
